@@ -86,7 +86,7 @@ func runC07(c *Ctx) {
 		idx := errResultIndex(fn)
 		for i, ret := range errorReturns(fn, idx) {
 			cons := fmt.Sprintf("%s:error-return#%d", r.Name, i)
-			if fromSummarized(ret.Results[idx]) {
+			if fromSummarized(retResult(ret, idx)) {
 				c.OK("C07.post-advance", cons, "forwards a summarized callee's error")
 				continue
 			}
@@ -125,7 +125,7 @@ func runC07(c *Ctx) {
 	for i, ret := range errorReturns(pp, idx) {
 		cons := fmt.Sprintf("ProcessPacket:error-return#%d", i)
 		if _, post := after[ret.Block()]; post {
-			if fromSummarized(ret.Results[idx]) {
+			if fromSummarized(retResult(ret, idx)) {
 				c.OK("C07.post-advance", cons, "forwards a summarized callee's error")
 				continue
 			}
@@ -141,7 +141,7 @@ func runC07(c *Ctx) {
 			}
 			continue
 		}
-		if readErr(ret.Results[idx]) {
+		if readErr(retResult(ret, idx)) {
 			readErrRets = append(readErrRets, ret)
 		}
 	}
